@@ -416,6 +416,8 @@ Section PathProofs.
   Notation path := (path cond).
   Notation append := (append cond cond_eqb simp is_true vars).
   Notation step := (step cond cond_eqb simp is_true vars).
+  Notation extend := (extend cond cond_eqb simp is_true vars).
+  Notation activate := (activate cond cond_eqb simp is_true vars).
   Notation run := (run cond cond_eqb simp is_true vars).
   Notation conds p := (map fst (conditions p)).
 
@@ -429,7 +431,16 @@ Section PathProofs.
     intros p c b. unfold SmtTextModel.append. simpl. rewrite has_cond_map.
     destruct (is_true (simp c)); simpl; [reflexivity|].
     destruct (existsb (cond_eqb (simp c)) (conds p)); simpl; [reflexivity|].
+    destruct (get_related cond p (vars (simp c))) as [rel m1]. simpl.
     rewrite map_app. reflexivity.
+  Qed.
+
+  Lemma append_pending : forall p c b, pending (append p c b) = pending p.
+  Proof.
+    intros p c b. unfold SmtTextModel.append.
+    destruct (is_true (simp c)); [reflexivity|].
+    destruct (has_cond cond cond_eqb (simp c) (conditions p)); [reflexivity|].
+    destruct (get_related cond p (vars (simp c))) as [rel m1]. reflexivity.
   Qed.
 
   Lemma add_all_app : forall cs1 cs2 acc, add_all acc (cs1 ++ cs2) = add_all (add_all acc cs1) cs2.
@@ -438,29 +449,59 @@ Section PathProofs.
     destruct (is_true (simp c) || existsb (cond_eqb (simp c)) acc); apply IH.
   Qed.
 
-  Lemma step_conds : forall p o q, step p o = Some q ->
-    conds q = add_all (conds p) (accumulated cond [o]).
+  Lemma extend_conds : forall cs p b, conds (extend p cs b) = add_all (conds p) cs.
   Proof.
-    intros p o q H. destruct o as [c b|c|vs|s0]; simpl in H; simpl.
-    - inversion H; subst. apply append_conds.
+    unfold SmtTextModel.extend.
+    induction cs as [|c cs IH]; intros p b; simpl fold_left; [reflexivity|].
+    rewrite IH, append_conds. change (c :: cs) with ([c] ++ cs)%list. rewrite add_all_app. reflexivity.
+  Qed.
+
+  Lemma extend_pending : forall cs p b, pending (extend p cs b) = pending p.
+  Proof.
+    unfold SmtTextModel.extend.
+    induction cs as [|c cs IH]; intros p b; simpl fold_left; [reflexivity|].
+    rewrite IH. apply append_pending.
+  Qed.
+
+  Lemma activate_conds : forall p, conds (activate p) = add_all (conds p) (pending p).
+  Proof. intros p. unfold SmtTextModel.activate. cbn [conditions]. apply extend_conds. Qed.
+
+  Lemma activate_pending : forall p, pending (activate p) = [].
+  Proof. reflexivity. Qed.
+
+  (* one step: the conditions grow by what joins the path, the pending list is the model's *)
+  Lemma step_conds : forall p o q r, step p o = Some q ->
+    add_all (conds q) (accumulated_from cond (pending q) r)
+    = add_all (conds p) (accumulated_from cond (pending p) (o :: r)).
+  Proof.
+    intros p o q r H. destruct o as [c b|c|c| |vs|s0]; simpl in H; cbn [accumulated_from].
+    - inversion H; subst. rewrite append_pending, append_conds.
+      change (c :: accumulated_from cond (pending p) r) with ([c] ++ accumulated_from cond (pending p) r)%list.
+      rewrite add_all_app. reflexivity.
     - unfold branch in H. destruct (pending p) eqn:Hp; [|discriminate]. inversion H; subst.
-      unfold activate, extend. cbn [pending conditions fold_left].
-      rewrite append_conds. reflexivity.
-    - unfold slice in H. destruct (sliced p); [discriminate|]. inversion H; subst. reflexivity.
+      rewrite activate_pending, activate_conds. cbn [pending conditions].
+      change (c :: accumulated_from cond [] r) with ([c] ++ accumulated_from cond [] r)%list.
+      rewrite add_all_app. reflexivity.
+    - unfold branch in H. destruct (pending p) eqn:Hp; [|discriminate]. inversion H; subst.
+      reflexivity.
+    - inversion H; subst. rewrite activate_pending, activate_conds, add_all_app. reflexivity.
+    - unfold slice in H. destruct (sliced p); [discriminate|].
+      destruct (get_related cond p vs) as [rel m']. inversion H; subst. reflexivity.
     - inversion H; subst. reflexivity.
   Qed.
 
-  Lemma run_conds : forall ops p q, run p ops = Some q ->
-    conds q = add_all (conds p) (accumulated cond ops).
+  Lemma run_conds_gen : forall ops p q, run p ops = Some q ->
+    conds q = add_all (conds p) (accumulated_from cond (pending p) ops).
   Proof.
     induction ops as [|o ops IH]; intros p q H; simpl in H.
     - inversion H; subst. reflexivity.
     - destruct (step p o) as [p'|] eqn:Hs; [|discriminate].
-      assert (Hacc : accumulated cond (o :: ops) = (accumulated cond [o] ++ accumulated cond ops)%list).
-      { unfold accumulated. simpl. rewrite app_nil_r. reflexivity. }
-      rewrite Hacc, add_all_app, <- (step_conds _ _ _ Hs).
-      apply IH. exact H.
+      rewrite <- (step_conds _ _ _ ops Hs). apply IH. exact H.
   Qed.
+
+  Lemma run_conds : forall ops s0 q, run (empty_path cond s0) ops = Some q ->
+    conds q = add_all [] (accumulated cond ops).
+  Proof. intros ops s0 q H. apply (run_conds_gen _ _ _ H). Qed.
 
   Lemma add_all_sem : forall e cs acc,
     Forall (sem e) (add_all acc cs) <-> Forall (sem e) acc /\ Forall (sem e) cs.
@@ -532,7 +573,7 @@ Section PathProofs.
      <-> path_constraints_hold sem e (accumulated cond ops)).
   Proof.
     intros ops s0 p cs e Hrun. unfold path_constraints_hold.
-    pose proof (run_conds _ _ _ Hrun) as Hc. simpl in Hc.
+    pose proof (run_conds _ _ _ Hrun) as Hc.
     assert (Hsem : Forall (sem e) (conds p) <-> Forall (sem e) (accumulated cond ops)).
     { rewrite Hc. rewrite add_all_sem. split; [intros [_ H]; exact H | intros H; split; [constructor | exact H]]. }
     rewrite <- Hsem. destruct cs.
@@ -549,16 +590,130 @@ Section PathProofs.
       = add_all [] (accumulated cond ops)
     /\ snd (to_smt2 cond cid p cs) = map cid (add_all [] (accumulated cond ops)).
   Proof.
-    intros ops s0 p cs Hrun. pose proof (run_conds _ _ _ Hrun) as Hc. simpl in Hc.
+    intros ops s0 p cs Hrun. pose proof (run_conds _ _ _ Hrun) as Hc.
     rewrite to_smt2_asserted, to_smt2_ids, Hc. split; reflexivity.
   Qed.
 
   (* slicing never changes `conditions` (hence never the query), only the solver *)
   Lemma slice_conds : forall (p q : path) vs, slice cond p vs = Some q -> conditions q = conditions p.
-  Proof. intros p q vs H. unfold slice in H. destruct (sliced p); [discriminate|]. inversion H; reflexivity. Qed.
+  Proof.
+    intros p q vs H. unfold slice in H. destruct (sliced p); [discriminate|].
+    destruct (get_related cond p vs) as [rel m']. inversion H; reflexivity.
+  Qed.
 
   Lemma extend_path_conds : forall (p parent : path), conditions (extend_path cond p parent) = conditions parent.
   Proof. reflexivity. Qed.
+
+  (* ---- conditions vs solver: the solver holds the fresh solver's content plus a SUBSET of
+     the conditions; all of them as long as no ancestor state was sliced *)
+  Lemma append_both : forall p c b,
+    (solver (append p c b) = solver p /\ conds (append p c b) = conds p /\ sliced (append p c b) = sliced p) \/
+    (solver (append p c b) = (solver p ++ [simp c])%list /\ conds (append p c b) = (conds p ++ [simp c])%list /\
+     sliced (append p c b) = sliced p).
+  Proof.
+    intros p c b. unfold SmtTextModel.append.
+    destruct (is_true (simp c)); [left; auto|].
+    destruct (has_cond cond cond_eqb (simp c) (conditions p)); [left; auto|].
+    destruct (get_related cond p (vars (simp c))) as [rel m1]. right. simpl. rewrite map_app. auto.
+  Qed.
+
+  Lemma extend_both : forall cs p b, exists l,
+    solver (extend p cs b) = (solver p ++ l)%list /\ conds (extend p cs b) = (conds p ++ l)%list /\
+    sliced (extend p cs b) = sliced p.
+  Proof.
+    unfold SmtTextModel.extend.
+    induction cs as [|c cs IH]; intros p b; simpl fold_left.
+    - exists []. rewrite !app_nil_r. auto.
+    - destruct (IH (append p c b) b) as (l & E1 & E2 & E3).
+      destruct (append_both p c b) as [(A1 & A2 & A3)|(A1 & A2 & A3)].
+      + exists l. rewrite E1, E2, E3, A1, A2, A3. auto.
+      + exists (simp c :: l). rewrite E1, E2, E3, A1, A2, A3. rewrite <- !app_assoc. auto.
+  Qed.
+
+  Lemma select_idx_incl : forall l idx keep c, In c (select_idx cond l idx keep) -> In c (map fst l).
+  Proof.
+    induction l as [|[c0 b0] l IH]; intros idx keep c H; simpl in *; [exact H|].
+    destruct (existsb (Nat.eqb idx) keep); [destruct H as [->|H]; [left; reflexivity | right; eapply IH; exact H] | right; eapply IH; exact H].
+  Qed.
+
+  Notation bases := (bases cond).
+  Notation no_slice := (no_slice cond).
+  Notation last_base := (last_base cond).
+
+  Lemma step_solver_incl : forall p o q B, step p o = Some q ->
+    (forall c, In c (solver p) -> In c B \/ In c (conds p)) ->
+    (forall c, In c (solver q) -> In c (bases B [o]) \/ In c (conds q)).
+  Proof.
+    intros p o q B H Hin. unfold SmtTextModel.bases.
+    assert (Hext : forall cs (p0 : path) b, (forall c, In c (solver p0) -> In c B \/ In c (conds p0)) ->
+               forall c, In c (solver (extend p0 cs b)) -> In c B \/ In c (conds (extend p0 cs b))).
+    { intros cs p0 b H0 c Hc. destruct (extend_both cs p0 b) as (l & E1 & E2 & _). rewrite E1 in Hc. rewrite E2.
+      apply in_app_or in Hc. destruct Hc as [Hc|Hc]; [|right; apply in_or_app; right; exact Hc].
+      destruct (H0 c Hc) as [H1|H1]; [left; exact H1 | right; apply in_or_app; left; exact H1]. }
+    destruct o as [c0 b|c0|c0| |vs|s1]; simpl in H; simpl flat_map; rewrite ?app_nil_r.
+    - inversion H; subst q. apply (Hext [c0] p b Hin).
+    - unfold branch in H. destruct (pending p); [|discriminate]. inversion H; subst q.
+      unfold SmtTextModel.activate. cbn [solver conditions pending]. apply (Hext [c0]). exact Hin.
+    - unfold branch in H. destruct (pending p); [|discriminate]. inversion H; subst q. exact Hin.
+    - inversion H; subst q. unfold SmtTextModel.activate. cbn [solver conditions]. apply Hext. exact Hin.
+    - unfold slice in H. destruct (sliced p); [discriminate|]. destruct (get_related cond p vs) as [rel m'].
+      inversion H; subst q. exact Hin.
+    - inversion H; subst q. unfold extend_path, empty_path, solver_additions. cbn [solver conditions].
+      intros c Hc. apply in_app_or in Hc. destruct Hc as [Hc|Hc]; [left; apply in_or_app; right; exact Hc|].
+      right. destruct (sliced p); [apply (select_idx_incl _ _ _ _ Hc) | exact Hc].
+  Qed.
+
+  Lemma run_solver_incl : forall ops p q B, run p ops = Some q ->
+    (forall c, In c (solver p) -> In c B \/ In c (conds p)) ->
+    (forall c, In c (solver q) -> In c (bases B ops) \/ In c (conds q)).
+  Proof.
+    induction ops as [|o ops IH]; intros p q B H Hin; simpl in H.
+    - inversion H; subst q. unfold SmtTextModel.bases. simpl. rewrite app_nil_r. exact Hin.
+    - destruct (step p o) as [p'|] eqn:Hs; [|discriminate].
+      pose proof (IH p' q (bases B [o]) H (step_solver_incl _ _ _ _ Hs Hin)) as H'.
+      intros c Hc. destruct (H' c Hc) as [H1|H1]; [left | right; exact H1].
+      unfold SmtTextModel.bases in *. simpl in *. rewrite app_nil_r in H1. rewrite <- app_assoc in H1. exact H1.
+  Qed.
+
+  Theorem solver_subset_of_conditions : forall ops s0 p,
+    run (empty_path cond s0) ops = Some p ->
+    forall c, In c (solver p) -> In c (bases s0 ops) \/ In c (conds p).
+  Proof.
+    intros ops s0 p H. apply (run_solver_incl ops _ _ s0 H). intros c Hc. left. exact Hc.
+  Qed.
+
+  Lemma run_solver_full : forall ops p q B, run p ops = Some q -> no_slice ops = true ->
+    sliced p = None -> solver p = (B ++ conds p)%list ->
+    sliced q = None /\ solver q = (last_base B ops ++ conds q)%list.
+  Proof.
+    induction ops as [|o ops IH]; intros p q B H Hns Hsl Hso; simpl in H.
+    - inversion H; subst q. auto.
+    - destruct (step p o) as [p'|] eqn:Hs; [|discriminate].
+      simpl in Hns. apply andb_true_iff in Hns. destruct Hns as [Hn1 Hn2].
+      assert (Hext : forall cs (p0 : path) b, sliced p0 = None -> solver p0 = (B ++ conds p0)%list ->
+                 sliced (extend p0 cs b) = None /\ solver (extend p0 cs b) = (B ++ conds (extend p0 cs b))%list).
+      { intros cs p0 b H0 H1. destruct (extend_both cs p0 b) as (l & E1 & E2 & E3).
+        rewrite E1, E2, E3, H1, app_assoc. auto. }
+      destruct o as [c0 b|c0|c0| |vs|s1]; simpl in Hs; try discriminate; simpl.
+      + inversion Hs; subst p'. destruct (Hext [c0] p b Hsl Hso) as [E1 E2]. apply (IH _ _ B H Hn2 E1 E2).
+      + unfold branch in Hs. destruct (pending p); [|discriminate]. inversion Hs; subst p'.
+        apply (IH _ _ B H Hn2).
+        * unfold SmtTextModel.activate. cbn [sliced conditions pending]. apply (Hext [c0]); [reflexivity | exact Hso].
+        * unfold SmtTextModel.activate. cbn [solver sliced conditions pending]. apply (Hext [c0]); [reflexivity | exact Hso].
+      + unfold branch in Hs. destruct (pending p); [|discriminate]. inversion Hs; subst p'.
+        apply (IH _ _ B H Hn2); [reflexivity | exact Hso].
+      + inversion Hs; subst p'. unfold SmtTextModel.activate in *.
+        apply (IH _ _ B H Hn2); cbn [sliced solver conditions]; apply Hext; assumption.
+      + inversion Hs; subst p'. apply (IH _ _ s1 H Hn2); [reflexivity|].
+        unfold extend_path, empty_path, solver_additions. cbn [solver conditions]. rewrite Hsl. reflexivity.
+  Qed.
+
+  Theorem solver_holds_all_when_unsliced : forall ops s0 p,
+    run (empty_path cond s0) ops = Some p -> no_slice ops = true ->
+    solver p = (last_base s0 ops ++ conds p)%list.
+  Proof.
+    intros ops s0 p H Hns. apply (run_solver_full ops _ _ s0 H Hns); [reflexivity|]. simpl. rewrite app_nil_r. reflexivity.
+  Qed.
 End PathProofs.
 
 Lemma slicing_keeps_conditions : forall (cond : Type) (p q parent : path cond) vs,
